@@ -5,7 +5,7 @@ import json, os, subprocess, sys, time
 VERIF = os.path.dirname(os.path.dirname(os.path.abspath(__file__)))
 def sh(cmd, **kw):
     return subprocess.run(cmd, shell=True, stdout=subprocess.PIPE, stderr=subprocess.STDOUT, text=True, **kw)
-seeds = sys.argv[1:] or sorted(d for d in os.listdir(os.path.join(VERIF, "seeded")) if os.path.isdir(os.path.join(VERIF, "seeded", d)))
+seeds = [a for a in sys.argv[1:] if not a.startswith("--")] or sorted(d for d in os.listdir(os.path.join(VERIF, "seeded")) if os.path.exists(os.path.join(VERIF, "seeded", d, "patch.diff")))
 inplace = "--inplace" in sys.argv
 norefine = "--no-refine" in sys.argv      # T1/T2 only (VERIF_NO_REFINE=1): is there a CONCRETE replay without the T0 obligations?
 seeds = [x for x in seeds if not x.startswith("--")]
